@@ -25,6 +25,13 @@ def handleLine (line : String) : String :=
       match handle Generated.C20.env args with
       | none => "err"
       | some c => s!"ok {bits c.features} {VL.hexEncode c.style} {VL.boolStr c.effInit} {VL.hexEncode c.pkgPrefix} {VL.hexEncode c.template} {replStr c.repl}"
+  | ["A", h] =>
+    match VL.hexDecode h with
+    | none => "bad-op"
+    | some text =>
+      match cmdline Generated.C20.env Generated.C20.cmdEnv text with
+      | none => "err"
+      | some c => s!"ok {bits c.features} {VL.hexEncode c.style} {VL.boolStr c.effInit} {VL.hexEncode c.pkgPrefix} {VL.hexEncode c.template} {replStr c.repl}"
   | _ => "bad-op"
 
 end Driver.C20
